@@ -80,8 +80,8 @@ def more_schemas(r, depth):
     ssrc, s = gen.gen_schema(r, r.randint(1, depth))
     try:
         v = gen.conform(r, s)
-        for p in [v] + ssuite.partials(r, v, limit=2):
-            if pyspec.is_plain(p):
+        for p in [v] + ssuite.partials(r, v, limit=2) + ssuite.with_placeholders(r, v)[:3]:
+            if pyspec.is_plain(p) or ssuite.has_placeholder(p):
                 try:
                     out.append((f"substitute({ssrc}, {gen.vsrc(p)})", substitute(s, p)))
                 except Exception:  # noqa
@@ -120,6 +120,9 @@ BOUNDARY = [
     "schema.str.regex('[^\\\\d\\\\w]{6}|[^a-zA-Z0-9]{6}')", "schema.list(schema.str.regex('^[^\\\\w ]{3}\\\\Z')).len(4)", "schema.bytes", "schema.date", "schema.uuid4",
     "schema.datetime", "schema.bool", "schema.any", "schema.dict", "schema.list", "schema.none",
     "schema.list([])", "schema.list([schema.int, schema.str])", "schema.dict({...: ...})",
+    "schema.list(schema.int).len(2, ...) % [1, ...]", "schema.list(schema.int).len(3, 5) % [..., 1, 2]",
+    "schema.list.len(2, ...) % [..., 'x']", "schema.dict % {'a': ..., 'b': [1]}",
+    "schema.dict({'a': schema.list(schema.str).len(2, 4)}) % {'a': ['x', ...]}",
     "schema.list(schema.list(schema.int).len(1, 2)).len(2)", "schema.int.max(-(2**63) - 5)", "schema.int.min(2**63 + 5)",
 ]
 
